@@ -10,6 +10,7 @@
 (* Every mutant is run through the sanitizer builds; C04 additionally expects the verdict Expect: an identifier at *)
 (* a using position that names nothing declared is an unresolvable reference, whatever the position.              *)
 EXTENDS Naturals, Integers, Sequences, TLC, Json, IOUtils
+CONSTANT Stride        \* 1: every position; k: every k-th position (the long shipped schemas)
 Toks == ndJsonDeserialize(IOEnv.TOKS)
 Ins == ndJsonDeserialize(IOEnv.INS)
 N == Len(Toks)
@@ -42,7 +43,7 @@ Sane(op, i, p) == LET a == Apply(op, i, p) IN
                   /\ op = "del" => a = Ix(1, i - 1) \o Ix(i + 1, N)
                   /\ op = "ins" => a[i] < 0 /\ \A j \in (i + 1)..(N + 1) : a[j] = j - 1
 VARIABLES op, i, p
-Init == op \in Ops /\ i \in 1..(N + 1) /\ p \in 0..Len(Ins) /\ Applicable(op, i, p)
+Init == op \in Ops /\ i \in {j \in 1..(N + 1) : j = 1 \/ j % Stride = 0} /\ p \in 0..Len(Ins) /\ Applicable(op, i, p)
 Next == UNCHANGED <<op, i, p>>
 Emit == PrintT("@@CASE " \o ToJson([op |-> op, i |-> i, p |-> p, expect |-> IF i <= N THEN Expect(op, i) ELSE "any", edit |-> Edit(op, i, p)]))
 \* (quadratic in N: checked on texts of up to 400 pieces; the operators do not depend on N)
